@@ -3,6 +3,7 @@ unfolding of a tree as the walker sees it under a follow mode (independent of th
 plain os.lstat / os.stat / os.listdir)."""
 import errno
 import os
+import re
 import shutil
 import stat
 
@@ -208,6 +209,53 @@ def unfold(root, mode, uf=None, xdev=False):
     root_dev = [None]
     t = node(root, 0, frozenset(), 0)
     return t, uf
+
+
+def graph_of(root, mode):
+    """The graph of directory identities below [root] as follow mode [mode] sees it, for WalkGraph.unfold
+    (the Coq side decides what is a cycle and what -xdev cuts; this only reads status records and listings).
+    -> (root entry, graph string, number of identities)"""
+    ids, devs, graph, queue = {}, {}, {}, []
+
+    def classify(path, top):
+        try:
+            lst = os.lstat(path)
+        except OSError:
+            return "B"
+        st = lst
+        if stat.S_ISLNK(lst.st_mode):
+            if not (mode == "L" or (mode == "H" and top)):
+                return "F"
+            try:
+                st = os.stat(path)
+            except OSError as e:
+                return "G" if e.errno in (errno.ENOENT, errno.ENOTDIR) else "B"
+        if not stat.S_ISDIR(st.st_mode):
+            return "F"
+        key = (st.st_dev, st.st_ino)
+        if key not in ids:
+            ids[key] = len(ids) + 1
+            queue.append((ids[key], path))
+            if len(ids) > 600:
+                raise TooBig()
+        return "D%d.%d" % (ids[key], devs.setdefault(st.st_dev, len(devs)))
+
+    r = classify(root, True)
+    while queue:
+        i, path = queue.pop(0)
+        try:
+            names = sorted(os.listdir(path))
+        except OSError:
+            graph[i] = "!"
+            continue
+        graph[i] = ",".join(classify(os.path.join(path, nm), False) for nm in names)
+    g = ";".join("%d=%s" % (i, graph[i]) for i in sorted(graph)) or "~"
+    return r, g, len(ids)
+
+
+def shape(tree):
+    """the tree string without the identifiers"""
+    return re.sub(r"\d+:", "", tree)
 
 
 def event_paths(model_line, uf):
